@@ -197,7 +197,7 @@ def run(pid, tier, ev=None, vd=None, finish=True):
             # "a write whose streamed bytes do not match its declared hash or LENGTH changes no such path": single sessions of
             # the real server (the HubSession pieces that are such writes), alone and followed by a read
             import hub_session as hs
-            bad_puts = ["put_badhash", "put_dir_badhash", "put_content_eof", "put_len_beyond_eof"]
+            bad_puts = ["put_badhash", "put_dir_badhash", "put_content_eof", "put_len_beyond_eof", "put_empty_badhash"]
             scases = [{"pro": "ok", "pieces": [b] + tail, "replies": [], "exit": 0, "f": "c1", "conf": "none"} for b in bad_puts for tail in ([], ["get"], ["list", "get"])]
             srecs = hs.run_cases(copia, os.path.join(work, "s10"), hashes, [], [(c, "session", vlib.seed() + i) for i, c in enumerate(scases)])
             for e in srecs:
